@@ -20,6 +20,8 @@ Fault kinds (applied to the n-th solver invocation of the current call):
   sol_noise {sign}       integral values perturbed by +-1e-9 (float noise a MIP solver produces)
   sol_perturb {var,d}    one variable value changed by d (a solver returning an infeasible vector)
   sol_scale {m}          every value multiplied by m (a feasible but non-optimal incumbent)
+  sol_set {values,text}  the solver hands back the given vector (e.g. one that satisfies every equality but violates
+                         a bound - what CBC reports for some infeasible integer programs)
   sol_drop_row {var}     one variable row lost from the file
   relax_lp               solver run without integrality (mip=False): fractional optimum
   stop_nodes0            branch and bound stopped at once (maxNodes=0)
@@ -39,7 +41,7 @@ import types
 
 FAULT_KINDS = [
     "exe_missing", "exit_before", "killed_before", "exit_after", "killed_after", "sol_missing", "sol_empty",
-    "sol_torn", "sol_stale", "sol_header", "sol_noise", "sol_perturb", "sol_scale", "sol_drop_row", "relax_lp", "stop_nodes0",
+    "sol_torn", "sol_stale", "sol_header", "sol_noise", "sol_perturb", "sol_scale", "sol_set", "sol_drop_row", "relax_lp", "stop_nodes0",
     "mps_enospc", "mps_eio", "mps_torn", "tmpdir_gone",
 ]
 
@@ -136,6 +138,13 @@ class _SimPopen(object):
             elif kind == "sol_perturb":
                 tgt = "X%07d" % int(f.get("var", 0))
                 new = _map_values(data, lambda name, v: v + float(f.get("d", 1)) if name == tgt else v)
+            elif kind == "sol_set":
+                vals = [float(v) for v in f.get("values", [])]
+                new = _map_values(data, lambda name, v: (vals[int(name[1:])] if name.startswith("X") and int(name[1:]) < len(vals) else v))
+                if f.get("text"):
+                    lines = new.split(b"\n")
+                    lines[0] = f["text"].encode()
+                    new = b"\n".join(lines)
             elif kind == "sol_scale":
                 m = float(f.get("m", 2))
                 new = _map_values(data, lambda name, v: v * m if name.startswith("X") else v)
